@@ -18,15 +18,32 @@ def main():
     ap.add_argument("--nshards", type=int, default=1)
     ap.add_argument("--only-case", default=None)
     ap.add_argument("--budget", type=float, default=None)
+    ap.add_argument("--resume-after", default=None)
+    ap.add_argument("--progress", default=None)
     ap.add_argument("--out", required=True)
     a = ap.parse_args()
     faulthandler.enable()
     from pvm.ctx import Ctx
     ctx = Ctx(a.prop, a.tier, a.seed, a.shard, a.nshards, a.only_case)
+    if a.resume_after is not None:
+        ctx.resume_after = a.resume_after
+        ctx._resuming = True
+    if a.progress:
+        ctx.progress_path = a.progress
+        ctx.checkpoint_path = a.out
     if a.budget:
         ctx.deadline = time.time() + a.budget
     status = "ok"
     err = None
+    # some library methods read/write files in the cwd: isolate per shard
+    cwd = os.path.join(os.environ.get("PVM_TMP", "."), f"cwd{a.shard}")
+    os.makedirs(cwd, exist_ok=True)
+    a.out = os.path.abspath(a.out)
+    if a.progress:
+        a.progress = os.path.abspath(a.progress)
+        ctx.progress_path = a.progress
+        ctx.checkpoint_path = a.out
+    os.chdir(cwd)
     try:
         mod = importlib.import_module("pvm.checks." + a.prop.lower())
         import pyunicorn  # noqa
